@@ -7,3 +7,6 @@ package client
 //
 //@ func (*ReceivedMessageReader) C() (c chan<- *pool.Message)
 //@   trusted
+//
+//@ func (*ReceivedMessageReader) TryToReplaceLoop()
+//@   trusted
